@@ -172,12 +172,25 @@ def reparameterise(rng, who, kind, d, old_recipe):
                 tl = np.asarray(who.source.trilist)
                 if not (np.sign(gen.tri_area2(who.source.points, tl)) == np.sign(gen.tri_area2(p, tl))).all():
                     return None
-            who.set_target(ms.PointCloud(p.copy()))
+            if rng.random() < 0.4:
+                # the caller refreshes the target object the alignment holds, in place, and hands the same object over again
+                tobj = who.target
+                if tobj.points.dtype.kind == "f":
+                    tobj.points[...] = p
+                else:
+                    tobj.points = p.copy()
+                who.set_target(tobj)
+            else:
+                who.set_target(ms.PointCloud(p.copy()))
+            src_given = who.source.copy()
+            cls_ = type(who)
+            kern, msv = (type(who.kernel), who.min_singular_val) if isinstance(who, mt.ThinPlateSplines) else (None, None)
 
             def rec():
-                c = old_recipe()
-                c.set_target(ms.PointCloud(p.copy()))
-                return c
+                # history-free: built directly from the source and the new target (never retargeted)
+                if kern is not None:
+                    return cls_(src_given.copy(), ms.PointCloud(p.copy()), kernel=kern(src_given.points.copy()), min_singular_val=msv)
+                return cls_(src_given.copy(), ms.PointCloud(p.copy()))
             return rec
         if not isinstance(who, mt.Homogeneous) or kind in ("TransformChain", "WithDims"):
             return None
@@ -197,7 +210,7 @@ def w_history(ctx, rng, i):
     from menpo.transform.piecewiseaffine.base import TriangleContainmentError, AbstractPWA
     TWINS.clear()
     d = 2 + (i % 5 == 4)
-    K = tx.kinds(d) + ["R2LogR2RBF", "R2LogRRBF"]
+    K = tx.kinds(d) + ["R2LogR2RBF", "R2LogRRBF", "WeaklyProjectiveHomogeneous", "ScaledHomogeneous"]
     if d == 2 and i % 2 == 0:
         kind = ["PiecewiseAffine", "PiecewiseAffine", "PythonPWA", "TransformChain", "ThinPlateSplines", "PWA_degenerate_triangle"][(i // 2) % 6]
     else:
